@@ -8,7 +8,7 @@ threads.  No source hook is needed.
 import math
 import sys
 
-from . import simsched
+from . import simsched, core
 from .simsched import Scheduler, SimQueue, SimEvent, SimLock, SharedFlag, fork_copy
 
 
@@ -167,7 +167,7 @@ class SimEnv:
                 self._chunk_no = 0
 
             def __call__(self, x):
-                return x * 2 + 1
+                return core.pool_f(x)
 
             def begin(self):
                 env.logs.setdefault(self.wid, []).append("b")
@@ -319,7 +319,7 @@ class SimEnv:
         """what every call should have yielded"""
         exp = []
         for k, (n, cs, ordered) in enumerate(self.cfg.calls):
-            exp.append([(k * 1000 + i) * 2 + 1 for i in range(n)])
+            exp.append([core.pool_f(k * 1000 + i) for i in range(n)])
         return exp
 
 
